@@ -34,19 +34,37 @@ def oracle(func, vals, labels):
     return out
 
 
-def scan_cases(run, rng, cases):
+def scan_cases(run, rng, cases, defer=0):
+    """defer > 0: the lazy results of `defer` consecutive cases are all BUILT before the first of them is computed
+    (a graph must not depend on the scans requested between building and computing it)"""
     import dask
     import dask.array as da
     import numpy as np
 
     import flox
 
-    coq = []
-    for func, vals, labels, chunks, dtype in cases:
+    def inputs(case):
+        func, vals, labels, chunks, dtype = case
         v = np.array([I.unf(x) for x in vals], dtype=dtype)
         lab = np.array([I.unf(x) for x in labels], dtype=float if "nan" in labels else int)
         arr = v if chunks is None else da.from_array(v, chunks=(tuple(chunks),))
-        key = f"scan|{func}|{vals}|{labels}|{chunks}|{dtype}"
+        return v, lab, arr
+
+    coq = []
+    prebuilt = {}
+    for ci, (func, vals, labels, chunks, dtype) in enumerate(cases):
+        if defer and ci % defer == 0:
+            prebuilt = {}
+            for cj in range(ci, min(len(cases), ci + defer)):
+                _, lab_j, arr_j = inputs(cases[cj])
+                try:
+                    with warnings.catch_warnings():
+                        warnings.simplefilter("ignore")
+                        prebuilt[cj] = flox.groupby_scan(arr_j, lab_j, func=cases[cj][0])
+                except Exception as e:  # noqa: BLE001  -- re-raised at the case's own turn
+                    prebuilt[cj] = e
+        v, lab, arr = inputs((func, vals, labels, chunks, dtype))
+        key = f"scan|{func}|{vals}|{labels}|{chunks}|{dtype}|{defer}"
         nblocks = 0 if chunks is None else len(chunks)
         absent_somewhere = False
         if chunks:
@@ -59,7 +77,11 @@ def scan_cases(run, rng, cases):
         try:
             with warnings.catch_warnings(), dask.config.set(scheduler="sync"):
                 warnings.simplefilter("ignore")
-                res = flox.groupby_scan(arr, lab, func=func)
+                res = prebuilt.pop(ci, None) if defer else None
+                if isinstance(res, Exception):
+                    raise res
+                if res is None:
+                    res = flox.groupby_scan(arr, lab, func=func)
                 got = np.asarray(res.compute() if hasattr(res, "compute") else res)
         except (ValueError, NotImplementedError):
             run.extra["refused_cases"] = run.extra.get("refused_cases", 0) + 1
@@ -86,6 +108,11 @@ def scan_cases(run, rng, cases):
             info = {"property": "C10", "kind": "grouped scan differs from the per-group sequential NumPy scan", "func": func,
                     "vals": vals, "labels": labels, "chunks": chunks, "dtype": dtype,
                     "got": [I.fnum(x) for x in np.asarray(got, dtype=float)], "want": [I.fnum(x) for x in want]}
+            if defer:
+                w0 = ci - ci % defer
+                info["history"] = (f"the lazy scans of these {defer} cases were all built (in this order) before any was computed; this is case "
+                                   f"{ci - w0} of the window")
+                info["window"] = [dict(zip(("func", "vals", "labels", "chunks", "dtype"), c)) for c in cases[w0:w0 + defer]]
             fid = F.classify_nd("C10", info)
             if fid:
                 run.known(fid, F.describe(fid))
@@ -171,6 +198,11 @@ def run(run: C.Run):
     cases = gen(rng, 4000 if thorough else 700, 8 if thorough else 6)
     run.cov["exhaustive"] = True
     coq = scan_cases(run, rng, cases)
+    # the same kind of cases, mixed dtypes, every lazy result of a window built before any of them is computed
+    dcases = [c for c in gen(rng, 1500 if thorough else 300, 0) if c[3] is not None]
+    rng.shuffle(dcases)
+    coq += scan_cases(run, rng, dcases, defer=6)
+    run.extra["deferred_scan_cases (6 lazy scans built before the first is computed)"] = len(dcases)
     eval_simple(run, "scan", "scan_case_ok", coq, "correspondence:K3 Scan.scan_seq / scan_chunked == flox.groupby_scan")
     if any(not o[1] for o in run.obligations) and not run.violations:
         run.violation({"property": "C10", "kind": "proof obligation / correspondence no longer checks",
@@ -187,6 +219,10 @@ def run(run: C.Run):
 def replay(run: C.Run, path):
     P.front(run, translators=("registry",))
     rp = C.json.load(open(path))
-    if "func" in rp:
+    if "window" in rp:
+        w = [(c["func"], c["vals"], c["labels"], c["chunks"], c["dtype"]) for c in rp["window"]]
+        coq = scan_cases(run, random.Random(run.seed), w, defer=len(w))
+        eval_simple(run, "scan", "scan_case_ok", coq, "correspondence:K3 Scan == flox.groupby_scan")
+    elif "func" in rp:
         coq = scan_cases(run, random.Random(run.seed), [(rp["func"], rp["vals"], rp["labels"], rp["chunks"], rp["dtype"])])
         eval_simple(run, "scan", "scan_case_ok", coq, "correspondence:K3 Scan == flox.groupby_scan")
